@@ -67,8 +67,14 @@ def execute(m, p, ctxs=None):
         execute(m, p[2], ctxs)
 
 
-def reply(mid, ans, ev='m'):
-    one = lambda sev: '<rpc-error><error-type>protocol</error-type><error-tag>lock-denied</error-tag><error-severity>%s</error-severity><error-message>%s</error-message></rpc-error>' % (sev, ev)
+ERROR_TAGS = ['lock-denied', 'in-use', 'resource-denied', 'access-denied', 'operation-failed', 'data-missing', 'operation-not-supported', 'too-big']
+
+
+def reply(mid, ans, ev='m', k=0):
+    # whatever the error-tag (RFC 6241 Appendix A) and error-type: an <rpc-error> of severity error is a refusal
+    tag = ERROR_TAGS[k % len(ERROR_TAGS)]
+    typ = ['protocol', 'application', 'rpc', 'transport'][(k // 3) % 4]
+    one = lambda sev: '<rpc-error><error-type>%s</error-type><error-tag>%s</error-tag><error-severity>%s</error-severity><error-message>%s</error-message></rpc-error>' % (typ, tag, sev, ev)
     if ans == 'o':
         body = '<ok/>'
     else:
@@ -90,7 +96,7 @@ class C13(Check):
     PROPS_MODULE = 'NcVerif.Props.C13'
     RULE = ('random bodies (requests, raise, sequencing, nested lock contexts on 4 datastore names incl. non-ASCII, depth <= 4) run as REAL '
             '`with m.locked(t):` blocks through Manager/LockContext/RPC on a stub session whose server answers each request by script '
-            '(ok / rpc-error severity error / warning-only), in 30 % of the runs with ONE context object per datastore entered again for every later `with`; the sequence of requests seen by the server and the exception seen by the '
+            '(ok / rpc-error severity error / warning-only, with the RFC 6241 error-tags and error-types rotating), in 30 % of the runs with ONE context object per datastore entered again for every later `with`; the sequence of requests seen by the server and the exception seen by the '
             'caller are compared with the model and with the property. Non-trivial = at least one lock context; distinct by (program, answers).')
     TRUST = ['the Python `with` statement semantics (enter/exit protocol) as modelled in Model/Lock.lean']
 
@@ -112,7 +118,7 @@ class C13(Check):
             k = size(p) * 2
             ans = [rng.choice('ooooewwxy') for _ in range(rng.randint(0, k))]
             # the manager's raise mode: its default ALL most of the time (the mode users get), ERRORS, NONE
-            out.append({'prog': p, 'ans': ans, 'mode': rng.choice([2, 2, 1, 0]), 'reuse': rng.random() < 0.3})
+            out.append({'prog': p, 'ans': ans, 'mode': rng.choice([2, 2, 1, 0]), 'reuse': rng.random() < 0.3, 'tagseed': rng.randrange(64)})
         return out
 
     def search(self, tier, rng, broken):
@@ -127,7 +133,7 @@ class C13(Check):
             ev = server_event(req)
             seen.append(ev)
             a = case['ans'][len(seen) - 1] if len(seen) - 1 < len(case['ans']) else 'o'
-            return reply(mid, a, ev)
+            return reply(mid, a, ev, len(seen) + case.get('tagseed', 0))
         m, s, dh = make_manager(responder=responder, raise_mode=case.get('mode', 1))   # governs the body's own requests only
         exc = '-'
         try:
